@@ -61,6 +61,18 @@ def handle (req : Json) : Except String Json := do
     pure (obj [("new", f (pows true ratMul 1 xq d)), ("old", f (pows false ratMul 1 xq d)),
                ("monos", f ((List.range (d + 1)).map (fun k => monos ratMul 1 k xq))),
                ("combs", ofList (ofList ratToJson) (multichoose d xq))])
+  | .ok (.str "callers") =>
+    -- {"op":"callers","kind":"learner","has_context":b,"features":[inter…]} | {"kind":"synthetic","nctx":n,"nact":n,"features":[inter…]}
+    let fs ← (← arr (← field req "features")).mapM parseInter
+    let kind ← str (← field req "kind")
+    let hasCtx ← bool (fieldD req "has_context" (Json.bool true))
+    let nctx ← nat (fieldD req "nctx" (ofNat 1))
+    let nact ← nat (fieldD req "nact" (ofNat 1))
+    let out := if kind == "learner" then learnerTerms hasCtx fs else syntheticTerms nctx nact (strTerms fs)
+    let interJ := fun (i : Inter) => match i with
+      | .num q => obj [("n", ratToJson q)]
+      | .term t => obj [("t", Json.str (String.ofList t))]
+    pure (obj [("terms", ofList interJ out), ("wellformed", Json.bool (wellformedTerms out))])
   | _ =>
     let is ← (← arr (← field req "terms")).mapM parseInter
     let kw ← (← arr (← field req "ns")).mapM (fun p => do
@@ -72,6 +84,8 @@ def handle (req : Json) : Except String Json := do
                ("variants", ofList (fun (c : Cfg) => Json.arr #[Json.bool c.fixPows, Json.bool c.fixZip, Json.bool c.fixAbsent,
                                        outToJson (encode c is kw)]) allCfgs),
                ("spec", outToJson (.ok (encodeS is kw))),
+               ("len", ofNat (encodeLen is kw)),
+               ("maxdeg", ofNat ((strTerms is).foldl (fun m t => max m t.length) 0)),
                ("hyp", Json.bool ((strTerms is).all (fun t => !t.isEmpty)))])
 
 end Coba.C20.Driver
